@@ -112,3 +112,54 @@ def judged_nodes(root):
         if n.name != "metadata":
             stack.extend(reversed(n.children))
     return out
+
+
+def allowed_unknown_cases(gen):
+    """Trees that are valid except for one child that the parent's rule permits but that is not a known element
+    (today: eml/software, eml/protocol, relatedProject/studyAreaDescription - derived from the loaded tables, not
+    hard-coded): single-node validation of the parent accepts, the child itself is an unknown node."""
+    from vlib import relang
+    from vlib.emlkit import mrule
+    out = []
+    known = set(gen.known)
+    for element, rname in gen.known.items():
+        try:
+            m = emlkit.machine_of(rname)
+        except Exception:
+            continue
+        for name in emlkit.spec_of(rname).names:
+            if name in known:
+                continue
+            # shortest accepted sequence through `name`: BFS over (state, seen) with buildable symbols only
+            start = (0, False)
+            prev = {start: None}
+            queue = [start]
+            goal = None
+            for st in queue:
+                s_, seen = st
+                if seen and m.out[s_] == relang.ACCEPT:
+                    goal = st
+                    break
+                for a in m.sigma:
+                    if a == relang.FOREIGN or (a != name and not gen.buildable(a)):
+                        continue
+                    nx = (m.delta[s_][a], seen or a == name)
+                    if nx not in prev:
+                        prev[nx] = (st, a)
+                        queue.append(nx)
+            if goal is None:
+                continue
+            seq = []
+            st = goal
+            while prev[st] is not None:
+                st, a = prev[st]
+                seq.append(a)
+            seq.reverse()
+            root = Node(element)
+            root.content = emlkit.canonical_content(rname)
+            for k, v in emlkit.valid_attributes(rname).items():
+                root.add_attribute(k, v)
+            for a in seq:
+                root.add_child(Node(a) if a == name else gen.minimal_tree(a))
+            out.append((f"{element}/{name}", root))
+    return out
